@@ -646,7 +646,12 @@ mod fuse {
         fn lin_log2_seg_size(arity: usize, n: usize) -> u32 {
             match arity {
                 3 => {
-                    debug_assert!(n <= 2 * Self::HALF_MAX_LIN_SHARD_SIZE);
+                    // The largest shard can exceed the average shard size,
+                    // which is at most 2 * HALF_MAX_LIN_SHARD_SIZE, by the 1%
+                    // that the builder tolerates
+                    debug_assert!(
+                        n <= 2 * Self::HALF_MAX_LIN_SHARD_SIZE + Self::HALF_MAX_LIN_SHARD_SIZE / 50
+                    );
                     (0.85 * (n.max(1) as f64).ln()).floor().max(1.) as u32
                 }
                 _ => unimplemented!(),
